@@ -69,6 +69,33 @@ fn io_kind(kind: &str) -> std::io::ErrorKind {
     }
 }
 
+/// Store root of the in-process run, for the `temp-vanishes` fault (see `install_handler`).
+pub static VANISH_ROOT: Mutex<Option<std::path::PathBuf>> = Mutex::new(None);
+
+/// Removes every temporary file of the store (an external cleaner racing the write).
+fn remove_temp_files(dir: &std::path::Path) {
+    let Ok(rd) = std::fs::read_dir(dir) else { return };
+    for e in rd.flatten() {
+        let p = e.path();
+        if p.is_dir() {
+            remove_temp_files(&p);
+        } else {
+            // Only the store's own in-flight temporary files (`.cbh-tmp-<pid>-<nanos>-<counter>`),
+            // never a stored object whose key merely begins with the reserved prefix.
+            let name = e.file_name().to_string_lossy().into_owned();
+            let mine = format!("{}{}-", crate::common::TEMP_PREFIX, std::process::id());
+            if let Some(rest) = name.strip_prefix(&mine) {
+                let mut parts = rest.split('-');
+                let ok = matches!((parts.next(), parts.next(), parts.next()), (Some(a), Some(b), None)
+                    if !a.is_empty() && !b.is_empty() && a.bytes().all(|c| c.is_ascii_digit()) && b.bytes().all(|c| c.is_ascii_digit()));
+                if ok {
+                    let _ = std::fs::remove_file(&p);
+                }
+            }
+        }
+    }
+}
+
 pub const INJECT_KINDS: &[&str] = &[
     "other", "storage-full", "permission-denied", "not-found", "already-exists", "interrupted", "write-zero",
 ];
@@ -111,7 +138,15 @@ pub fn install_handler(plan: &Plan, state: &SharedFaults, on_crash: fn(&str, u32
                         .expect("fault state")
                         .fired
                         .push((name.to_owned(), occ, f.kind.clone()));
-                    result = Err(std::io::Error::new(io_kind(&f.kind), "injected fault"));
+                    if f.kind == "temp-vanishes" && name == "write:before-rename" {
+                        // Not an injected return value: the temporary file really disappears (an
+                        // external cleaner), so the rename system call itself fails with ENOENT.
+                        if let Some(root) = VANISH_ROOT.lock().expect("root").as_ref() {
+                            remove_temp_files(root);
+                        }
+                    } else {
+                        result = Err(std::io::Error::new(io_kind(&f.kind), "injected fault"));
+                    }
                 }
             }
             Plan::None | Plan::Fsize { .. } => {}
